@@ -705,6 +705,8 @@ def construction_family(tier):
     # maps
     add("def_map_0_of_0", ("map", 0, [])); add("def_map_1_of_2", ("map", 2, [(U(8), ("tstr", 2))]))
     add("def_map_2_of_2", ("map", 2, [(("tstr", 1), N(32)), (("ibstr", [("bstr", 1)]), ("f64",))]))
+    add("def_map_2_leaf_pairs", ("map", 2, [(U(8), U(16)), (N(8), ("ctrl", 21))])); add("indef_map_2_leaf_pairs", ("imap", [(U(8), N(8)), (U(8), U(8))]))
+    add("tag_of_map_1_pair", ("tag", ("map", 1, [(U(8), N(16))]))); add("indef_array_of_2_tags", ("iarr", [("tag", U(8), "const", 3), ("tag", N(8), "const", 300)]))
     add("indef_map_0", ("imap", [])); add("indef_map_3", ("imap", [(U(8), U(16)), (N(8), ("ctrl", 22)), (("tstr", 0), ("arr", 0, []))]))
     # tags
     add("tag_leaf", ("tag", U(8))); add("tag_set_item", ("tag", ("tstr", 2), "set")); add("tag_nested3", ("tag", ("tag", ("tag", N(64), "const", 5), "const", 1000)))
